@@ -92,8 +92,8 @@ Proof. exact stable_sort_checker. Qed.
 Print Assumptions C14_stable_sort_call_judged.
 
 (* merge of two ordered sequences is ordered, a permutation of both together, and stable with the
-   elements of the first sequence first (the reference); the Go loop is that merge with the sequences
-   EXCHANGED — always an ordered permutation, equal to the reference when no key occurs in both *)
+   elements of the first sequence first (the reference); the Go loop (repaired by repo_fixes/C14-16)
+   IS that merge: ordered, a permutation, and stable *)
 Theorem C14_merge_reference : forall lt k, swo lt -> forall l1 l2, ordered lt k l1 -> ordered lt k l2 ->
   stable_spec lt k (l1 ++ l2) (s_merge lt k l1 l2).
 Proof. exact merge_spec. Qed.
@@ -103,6 +103,11 @@ Theorem C14_merge_code_sorted_permutation : forall t k l1 l2, test_strict t = tr
   sort_spec (s_test2 t) (key_app k) (l1 ++ l2) (m_merge_lists t k l1 l2).
 Proof. exact m_merge_sorted_perm. Qed.
 Print Assumptions C14_merge_code_sorted_permutation.
+Theorem C14_merge_code_stable : forall t k l1 l2, test_strict t = true ->
+  ordered (s_test2 t) (key_app k) l1 -> ordered (s_test2 t) (key_app k) l2 ->
+  stable_spec (s_test2 t) (key_app k) (l1 ++ l2) (m_merge_lists t k l1 l2).
+Proof. exact m_merge_stable. Qed.
+Print Assumptions C14_merge_code_stable.
 
 (* (4) set functions: the checkers decide the relations the language describes *)
 Theorem C14_union_checker_decides : forall mt l1 l2 r, union_ok mt l1 l2 r = true <-> union_spec mt l1 l2 r.
@@ -196,9 +201,6 @@ Print Assumptions C14_mismatch_refuted.
 Theorem C14_fill_end_refuted : refutes w_fill_end = true /\ refutes w_fill_start = true.
 Proof. exact fill_end_refuted. Qed.
 Print Assumptions C14_fill_end_refuted.
-Theorem C14_merge_tie_refuted : refutes w_merge_tie = true.
-Proof. exact merge_tie_refuted. Qed.
-Print Assumptions C14_merge_tie_refuted.
 Theorem C14_reduce_refuted : refutes w_reduce_empty = true /\ refutes w_reduce_start = true.
 Proof. exact reduce_refuted. Qed.
 Print Assumptions C14_reduce_refuted.
